@@ -83,6 +83,10 @@ def call_items(pid, tier):
             tests = [ast.unparse(n.test) for n in ast.walk(fn) if isinstance(n, (ast.If, ast.While, ast.IfExp))]
             ok = want in tests
             detail = "" if ok else "no branch on %s (tests: %s)" % (want, tests)
+        elif c["where"] == "return-any":
+            rets = [ast.unparse(r.value) for r in ast.walk(fn) if isinstance(r, ast.Return) and r.value is not None]
+            ok = want in rets
+            detail = "" if ok else "returns %s, none is %s" % (rets, want)
         elif c["where"] == "return":
             rets = [ast.unparse(r.value) for r in ast.walk(fn) if isinstance(r, ast.Return) and r.value is not None]
             ok = rets == [want]
